@@ -878,6 +878,10 @@ Structure read_pdb_from_stream(AnyStream& line_reader, const std::string& source
   };
   while (size_t len = line_reader.copy_line(line, options.max_line_length+1)) {
     ++line_num;
+    // Fixed-column fields are read also beyond the end of a short line.
+    // Blank the rest of the buffer (after the terminating NUL), so that
+    // such reads never see bytes left over from a previous, longer line.
+    std::memset(line + len + 1, ' ', sizeof(line) - 2 - len);
     if (is_record_type4(line, "ATOM") || is_record_type4(line, "HETATM")) {
       if (len < 55)
         wrong("The line is too short to be correct:\n" + std::string(line));
